@@ -129,6 +129,7 @@ func runC08(e *core.Env) {
 	inClose := map[string]bool{}
 	neverCopied := map[string]bool{} // children left out by a sparse copy, by design
 	gcRemovals := 0
+	removedByGC := map[string]bool{} // digests a Close removed at some point of the run
 	disk.OnMutation = func(en simos.Entry) {
 		if en.Op != "remove" || !strings.HasPrefix(en.Abs, dir+"/blobs/") {
 			return
@@ -143,6 +144,7 @@ func runC08(e *core.Env) {
 			return
 		}
 		d := parts[0] + ":" + parts[1]
+		removedByGC[d] = true
 		for r, started := range active {
 			if started {
 				e.Violation("gc-under-copy", "gc-under-copy", "Close (task %s) removed %s while the ImageCopy of task %s into the layout was in progress", en.Task, short(d), r)
@@ -329,14 +331,30 @@ func runC08(e *core.Env) {
 				needs = append(needs, n)
 			}
 		}
-		for _, m := range oracle.CheckPresent(st, st, needs) {
-			e.Violation("end-state", "tag-content-missing", "at the end tag %s: %s", t, m)
+		// what is missing below a tag is this property's business when the collector took it away; content that was
+		// never there (a copy that trusted a manifest the layout held already - possibly only as the layer of the
+		// artifact carrying it - is C03's "trusted to be complete" clause) is not
+		for _, n := range needs {
+			var present bool
+			if n.Manifest {
+				_, _, present = st.Manifest(n.Digest)
+			} else {
+				_, present = st.Blob(n.Digest)
+			}
+			if present {
+				continue
+			}
+			if removedByGC[n.Digest] {
+				e.Violation("end-state", "tag-content-missing", "at the end tag %s: %s (%s) is missing and a Close had removed it", t, short(n.Digest), n.Why)
+			} else {
+				e.Probe("content-below-a-tag-never-stored")
+			}
 		}
 		raw, _, _ := st.Manifest(d)
 		for _, r := range regmodel.ContentRefs(raw) {
 			if r.Manifest && !neverCopied[r.Digest] {
-				if _, _, ok := st.Manifest(r.Digest); !ok {
-					e.Violation("end-state", "tag-child-missing", "at the end tag %s lacks child manifest %s", t, short(r.Digest))
+				if _, _, ok := st.Manifest(r.Digest); !ok && removedByGC[r.Digest] {
+					e.Violation("end-state", "tag-child-missing", "at the end tag %s lacks child manifest %s, which a Close had removed", t, short(r.Digest))
 				}
 			}
 		}
